@@ -13,6 +13,7 @@ mod exec;
 mod gen;
 mod hook;
 mod mt;
+mod mtscen;
 mod ops;
 mod rng;
 mod scen;
